@@ -67,7 +67,8 @@ def from_description(d):
     nargs = d.get("nargs", 2)
     return {"profile": d.get("profile", "replay"), "accounts": accounts, "this": THIS,
             "calldata": [("c", b"\x12\x34\x56\x78")] + [("s", f"arg{i}", 32) for i in range(nargs)],
-            "static": d.get("static", False), "options": d.get("options", {}), "symbolic_storage": bool(d.get("symbolic_storage"))}
+            "static": d.get("static", False), "options": d.get("options", {}), "symbolic_storage": bool(d.get("symbolic_storage")),
+            "extra_args": d.get("extra_args", [])}     # argument valuations a corpus entry insists on (l2tie.derive_inputs)
 
 
 BOOL_OPS = {0x10, 0x11, 0x12, 0x13, 0x14, 0x15}
